@@ -705,6 +705,21 @@ impl Property for C01 {
                 }
             }
         }
+        // mutants can crash libclang itself (e.g. `Bar: Bar();` inside a class template makes
+        // clang_getCursorReferenced dereference null): a pre-flight in an isolated worker keeps
+        // such an input from taking the whole run down; crashes are C12's subject
+        if matches!(&case.source, Source::Mut { edits, .. } if !edits.is_empty()) {
+            let pf = env.dir.join("preflight");
+            let req = serde_json::json!({"op": "gen", "dir": pf.to_str().unwrap(), "input": input, "ops": []});
+            bg::write_files(&pf, &input.files);
+            match crate::worker::call(&req, 120) {
+                crate::worker::Reply::Ok(_) => {}
+                _ => {
+                    out.class("generation-crashed-in-preflight (C12)");
+                    return out;
+                }
+            }
+        }
         let bindings = match bg::generate(&input, &env.dir) {
             BgResult::Ok(t) => t,
             BgResult::Err(e) if e.contains("ClangDiagnostic") => {
